@@ -30,6 +30,13 @@ def connack(code=0, sp=0): return pkt(2, 0, bytes([sp, code]))
 def pubxxx(t, pid, flags=None): return pkt(t, (2 if t == 6 else 0) if flags is None else flags, struct.pack('>H', pid))
 def suback(pid, codes=(0,)): return pkt(9, 0, struct.pack('>H', pid) + bytes(codes))
 def pingresp(): return pkt(13, 0, b'')
+def enc_rl_n(n, nbytes):
+    """remaining length n encoded with exactly nbytes bytes (non-minimal when longer than needed)"""
+    out = bytearray()
+    for i in range(nbytes):
+        b = n & 0x7F; n >>= 7
+        out.append(b | (0x80 if i < nbytes - 1 else 0))
+    return bytes(out)
 
 def connect_size():
     c = consts()
@@ -76,6 +83,31 @@ def ref_parse1(s):
     if ct == 9: return ('packet', dict(ct=9, pid=(body[0] << 8) | body[1], codes=bytes(body[2:]), total=h + rl), h + rl)
     if ct == 13: return ('packet', dict(ct=13, total=h + rl), h + rl)
     return ('packet', dict(ct=ct, pid=(body[0] << 8) | body[1], total=h + rl), h + rl)
+
+class RefQueue:
+    """the monitor's own bookkeeping of the send queue (occupancy only): entries [type, id, size, sent, acked]"""
+    def __init__(self, sendbuf, qsz): self.q = []; self.SB = sendbuf; self.QSZ = qsz
+    def complete(self, e): return e[4] or (e[3] and e[0] in (4, 7, 14))
+    def currsz(self, q=None):
+        q = self.q if q is None else q
+        lim = self.SB - (len(q) + 1) * self.QSZ; used = sum(e[2] for e in q)
+        return 0 if lim <= used else lim - used
+    def clean(self):
+        i = 0
+        while i < len(self.q) and self.complete(self.q[i]): i += 1
+        self.q = self.q[i:]
+    def pack(self, t, pid, sz):
+        if sz > self.currsz():
+            self.clean()
+            if sz > self.currsz(): return False
+        self.q.append([t, pid, sz, False, False]); return True
+    def send(self):
+        for e in self.q:
+            if not e[3] and not e[4]: e[3] = True
+    def ack(self, t, pid=None):
+        for e in self.q:
+            if e[0] == t and ((pid is None and not self.complete(e)) or (pid is not None and e[1] == pid)): e[4] = True; return True
+        return False
 
 class C16(F.PropCheck):
     pid = 'C16'; gen_groups = ['MqttConsts']; prop_file = 'Properties_C16'
@@ -265,6 +297,44 @@ class C16(F.PropCheck):
                         if t == 6 and match: pre += [('SEG', [], publish(b'q/2', b'x', qos=2, pid=pid_)), T]
                         body = (struct.pack('>H', pid_ if match else pid_ + 1) + b'\x00\x00\x00')[:rl] if t != 2 else b'\x00\x00\x00\x00\x00'[:rl]
                         cases.append(F.Case('acklen_t%d_rl%d_m%d_f%d' % (t, rl, match, len(follow)), [S] + pre + [('SEG', [], pkt(t, REQ_FLAGS[t], body) + follow), T], ['ack-lengths']))
+        # non-minimal remaining-length encodings (2, 3, 4 bytes for a small packet) and a fifth length byte
+        for nb in (1, 2, 3, 4, 5):
+            for q in (0, 1):
+                body = struct.pack('>H', 3) + b'n/m' + (struct.pack('>H', 70 + nb) if q else b'') + b'pay'
+                p = bytes([0x30 | (q << 1)]) + enc_rl_n(len(body), nb) + body
+                cases.append(F.Case('rlenc_%d_q%d' % (nb, q), [S, ('SEG', [], connack() + p + behind), T], ['rl-encoding']))
+                cases.append(F.Case('rlenc_%d_q%d_split' % (nb, q), [S, ('SEG', [], connack() + p[:nb]), ('SEG', [], p[nb:] + behind), T], ['rl-encoding']))
+        # every first byte (type x flags) with a plausible body, a PUBLISH behind it
+        for b0 in range(256):
+            t = b0 >> 4
+            body = {2: b'\x00\x00', 9: b'\x00\x01\x00', 13: b'', 12: b'', 14: b''}.get(t, b'\x00\x01')
+            if t == 3: body = struct.pack('>H', 1) + b'h' + (struct.pack('>H', 5) if b0 & 6 else b'') + b'v'
+            pre = [] if t == 2 else [('SEG', [], connack())]
+            cases.append(F.Case('hdr_%02x' % b0, [S] + pre + [('SEG', [], bytes([b0]) + enc_rl(len(body)) + body + behind), T], ['header-bytes']))
+        # CONNACK flag/code values, SUBACK return codes
+        for sp in (0, 1, 2, 0x80, 0xFF):
+            for code in (0, 1, 2, 3, 4, 5, 6, 255):
+                cases.append(F.Case('connack_%d_%d' % (sp, code), [S, ('SEG', [], connack(code, sp) + behind), T], ['connack-values']))
+        for j, codes in enumerate(([0], [1], [2], [0x80], [3], [0x7F], [0, 0x80], [0x80, 0], [0] * 5, [2, 1, 0])):
+            cases.append(F.Case('subcodes_%d' % j, [S, ('SEG', [], connack()), ('SUB', [700, 10], b''), T, ('SEG', [], suback(700, codes) + behind), T], ['suback-codes']))
+        # ids that almost match an outstanding request (width/narrowing, byte order)
+        for j, d in enumerate((1, -1, 256, -256, 0x100 ^ 0, 0x8000)):
+            base = 0x1234
+            near = (base + d) & 0xFFFF
+            swp = ((base & 0xFF) << 8) | (base >> 8)
+            for nid in (near, swp):
+                cases.append(F.Case('nearid_sub_%d_%d' % (j, nid), [S, ('SEG', [], connack()), ('SUB', [base, 10], b''), T, ('SEG', [], suback(nid) + behind), T], ['near-ids']))
+                cases.append(F.Case('nearid_pub_%d_%d' % (j, nid), [S, ('SEG', [], connack()), ('PUB', [1, base, 10], b''), T, ('SEG', [], pubxxx(4, nid) + behind), T], ['near-ids']))
+                cases.append(F.Case('nearid_rel_%d_%d' % (j, nid), [S, ('SEG', [], connack() + publish(b'q/2', b'x', qos=2, pid=base)), T, ('SEG', [], pubxxx(6, nid) + behind), T], ['near-ids']))
+        # receive buffer filled exactly / one short / one over by a segment behind a pending partial packet
+        RBsz = consts()['RECVBUF']
+        for k in (1, 5, 300, RBsz - 5, RBsz - 2, RBsz - 1):
+            for d in (-1, 0, 1):
+                big = publish(b'big', b'B' * (RBsz - 3 - 5), qos=0)        # exactly RBsz bytes (1 + 2 length bytes + 2 + 3 + payload)
+                assert len(big) == RBsz
+                st = big + publish(b'nx', b'N' * 40, qos=1, pid=55) + behind
+                cut2 = max(k + 1, min(len(st), RBsz + d))
+                cases.append(F.Case('fill_%d_%d' % (k, d), [S, ('SEG', [], connack()), ('SEG', [], st[:k]), ('SEG', [], st[k:cut2]), ('SEG', [], st[cut2:]), T], ['buffer-fill']))
         # exhaustive two-cut segmentations of a short stream
         s = connack() + publish(b't/1', b'on', qos=1, pid=7) + publish(b'ab', b'', qos=2, pid=9) + pubxxx(6, 9)
         lim = len(s) if tier == 'thorough' else 12
@@ -316,13 +386,27 @@ class C16(F.PropCheck):
         pubs = set(); pubacked = set(); dup_pids = set(); dup_msgs = {}
         pend = b''; subs = set(); subacked = set(); pings = 0; connacked = False; q2_open = set(); q2_seen = set()
         optional_from = None
+        rq = RefQueue(c['SENDBUF'], c['QSZ']); full_at = None
         for (k, ints, data) in case.evs:
             if end: break
-            if k == 'SUB': subs.add(ints[0])
-            elif k == 'PUB': pubs.add(ints[1])
-            elif k == 'PING': pings += 1
+            if k == 'START': rq.pack(1, 0, ints[0]); rq.send()
+            elif k == 'SUB':
+                subs.add(ints[0])
+                if not rq.pack(8, ints[0], ints[1]): end = ('legit', 'device request does not fit the send queue')
+            elif k == 'PUB':
+                pubs.add(ints[1])
+                if not rq.pack(3, ints[1], ints[2]): end = ('legit', 'device request does not fit the send queue')
+            elif k == 'PING':
+                pings += 1
+                if not rq.pack(12, 0, 2): end = ('legit', 'device request does not fit the send queue')
+            elif k == 'TICK': rq.send(); rq.clean()
             elif k == 'SEG':
-                pend += bytes(data); q2_this_seg = set()
+              rest = bytes(data); q2_this_seg = set(); first = True
+              while (rest or first) and not end:
+                first = False
+                n = min(len(rest), RB - len(pend))
+                if n == 0 and rest: end = ('legit', 'receive buffer full'); break
+                pend += rest[:n]; rest = rest[n:]
                 while not end:
                     kind, info, used = ref_parse1(pend)
                     if kind == 'inc':
@@ -339,35 +423,43 @@ class C16(F.PropCheck):
                                 # retransmission before PUBREL: the same message, must not be passed to the handler again
                                 dup_pids.add(info['pid']); dup_msgs[(info['topic'], info['payload'], 2, 1, info['retain'])] = info['pid']; continue
                             if info['pid'] in q2_seen: end = ('legit', 'QoS 2 packet id used again'); break
+                            if not rq.pack(5, info['pid'], 4): full_at = len(exp); end = ('legit', 'send queue full'); break
                             q2_seen.add(info['pid']); q2_open.add(info['pid']); exp_acks.append((5, info['pid'])); q2_this_seg.add(info['pid'])
-                        elif info['qos'] == 1: exp_acks.append((4, info['pid']))
+                        elif info['qos'] == 1:
+                            if not rq.pack(4, info['pid'], 4): full_at = len(exp); end = ('legit', 'send queue full'); break
+                            exp_acks.append((4, info['pid']))
                         exp.append((info['topic'], info['payload'], info['qos'], info['dup'], info['retain']))
                     elif ct == 2:
                         if connacked: end = ('malformed', 'CONNACK for a CONNECT that was already acknowledged', True)
                         elif info['sp'] > 1 or info['code'] != 0: end = ('legit', 'CONNACK refusing or with undefined fields')
-                        connacked = True
+                        connacked = True; rq.ack(1)
                     elif ct == 9:
                         if info['pid'] in subacked: end = ('legit', 'second SUBACK')
                         elif info['pid'] not in subs: end = ('malformed', 'SUBACK for a SUBSCRIBE never sent (id %d)' % info['pid'], True)
                         elif info['codes'][0] == 0x80: end = ('legit', 'subscription refused')
-                        subacked.add(info['pid'])
+                        subacked.add(info['pid']); rq.ack(8, info['pid'])
                     elif ct == 13:
                         if pings == 0: end = ('malformed', 'PINGRESP without PINGREQ', True)
-                        pings -= 1
+                        pings -= 1; rq.ack(12)
                     elif ct == 6:
                         if info['pid'] in q2_this_seg:
                             end = ('legit', 'PUBREL in the same segment as its PUBLISH (PUBREC not yet sent)')
                             exp_acks = exp_acks[:exp_acks.index((5, info['pid']))]
-                        elif info['pid'] in q2_open: q2_open.discard(info['pid']); exp_acks.append((7, info['pid']))
+                        elif info['pid'] in q2_open:
+                            q2_open.discard(info['pid']); rq.ack(5, info['pid'])
+                            if not rq.pack(7, info['pid'], 4): end = ('legit', 'send queue full at a PUBREL'); break
+                            exp_acks.append((7, info['pid']))
                         elif info['pid'] in q2_seen: end = ('legit', 'second PUBREL')
                         else: end = ('malformed', 'PUBREL for a PUBLISH never received (id %d)' % info['pid'], True)
                     elif ct == 4 and info['pid'] in pubs:
                         if info['pid'] in pubacked: end = ('legit', 'second PUBACK')
-                        pubacked.add(info['pid'])
+                        pubacked.add(info['pid']); rq.ack(3, info['pid'])
                     else: end = ('malformed', 'acknowledgement type %d of something never sent (id %d)' % (ct, info['pid']), True)
-        sendfull = (err == c['E_SEND_BUFFER_IS_FULL'])
+                if not end: rq.send()
+        # send-queue-full (known finding) only where the monitor's own queue bookkeeping says the acknowledgement had no room
+        sendfull = (err == c['E_SEND_BUFFER_IS_FULL']) and full_at is not None and len(msgs) == full_at
         legit = bool(end)
-        if end and end[0] == 'malformed' and end[2] and len(msgs) > len(exp) and msgs[:len(exp)] == exp and err != c['E_SEND_BUFFER_IS_FULL']:
+        if end and end[0] == 'malformed' and end[2] and len(msgs) > len(exp) and msgs[:len(exp)] == exp:
             return ['a packet behind a malformed packet (%s) was still passed to the handler (topic %d bytes)' % (end[1], len(msgs[len(exp)][0]))]
         if legit: msgs = msgs[:len(exp)]; acks = acks[:len(exp_acks)]   # what happens after an ambiguous point is left to the model comparison
         # --- compare
@@ -390,9 +482,8 @@ class C16(F.PropCheck):
         for i, a in enumerate(acks):
             if i >= len(exp_acks) or a != exp_acks[i]:
                 v.append('acknowledgement #%d (type %d id %d) does not match the stream (expected %s)' % (i, a[0], a[1], exp_acks[i] if i < len(exp_acks) else 'none')); return v
-        if sendfull and len(msgs) < len(exp) and msgs == exp[:len(msgs)]:
-            k = len(msgs)
-            v.append('well-formed PUBLISH #%d of the stream (qos %d) was dropped without callback and acknowledgement: the send queue could not take its acknowledgement (SEND_BUFFER_IS_FULL after %d queued acknowledgements), session reset' % (k, exp[k][2], len(exp_acks))); return v
+        if sendfull and msgs == exp[:len(msgs)]:
+            v.append('well-formed PUBLISH #%d of the stream was dropped without callback and acknowledgement: the send queue could not take its acknowledgement (SEND_BUFFER_IS_FULL, %d messages queued, %d bytes free), session reset' % (full_at, len(rq.q), rq.currsz())); return v
         if not sendfull and len(msgs) < len(exp):
             # every well-formed PUBLISH before the end point must have been delivered (all its bytes were handed over)
             v.append('well-formed PUBLISH #%d of the stream (topic %d bytes, payload %d bytes, qos %d) was not passed to the handler%s' %
